@@ -70,8 +70,11 @@ func (a Adapter) buildSeed(w *worker, i int) (*HState, Ghost) {
 	for _, op := range a.Spec.SeedPaths()[i] {
 		var st engine.Step
 		a.Spec.Do(in, g, op, &st)
-		if len(st.Violations) > 0 || st.Pruned != "" {
-			panic(fmt.Sprintf("seed path %d op %s: %+v %s", i, op, st.Violations, st.Pruned))
+		// violations while constructing a seed are not reported here: seeds are only starting points,
+		// the same transitions are checked when the search reaches them (or, for known findings,
+		// are already recorded); a seed that cannot be built is a harness error
+		if st.Pruned != "" {
+			panic(fmt.Sprintf("seed path %d op %s: pruned %s", i, op, st.Pruned))
 		}
 	}
 	return &HState{Snap: in.Snapshot(), G: g}, g
